@@ -104,6 +104,10 @@ pub fn gen_char(rng: &mut Rng, class: CharClass) -> char {
         CharClass::Special => *rng.pick(&['"', '\\', '$', '`', '\'', '{', '}', '<', '>', '(', ')', '[', ']', ',', ':', '@', '^', '/', 'u', 'n', '&', '=', ';', '#', '?']),
         CharClass::Latin => char::from_u32(0x80 + rng.below(0x800 - 0x80) as u32).unwrap(),
         CharClass::Bmp => loop {
+            // one in eight: the edges of the BMP (around the surrogate gap, the replacement character, the last code points)
+            if rng.chance(1, 8) {
+                return *rng.pick(&['\u{d7ff}', '\u{e000}', '\u{fffc}', '\u{fffd}', '\u{fffe}', '\u{ffff}', '\u{feff}', '\u{2028}', '\u{2029}', '\u{800}']);
+            }
             let c = 0x800 + rng.below(0x10000 - 0x800) as u32;
             if let Some(ch) = char::from_u32(c) {
                 return ch;
@@ -148,13 +152,18 @@ pub fn gen_string_with(rng: &mut Rng, controls: bool) -> String {
         }
         return s;
     }
-    let len = match rng.below(20) {
+    let mut len = match rng.below(20) {
         0 => 0,
         1..=3 => 1,
         4..=14 => 1 + rng.below(12),
         15..=18 => rng.below(60),
         _ => 200 + rng.below(5000),
     };
+    // now and then exactly a power of two or its neighbours (buffer and chunk boundaries are not where random lengths land)
+    if rng.chance(1, 30) {
+        let p = 1usize << (3 + rng.below(11)); // 8 .. 8192
+        len = p + rng.below(3) - 1;
+    }
     // choose a subset of classes for this string
     let mut classes = vec![CharClass::Ascii];
     for c in [CharClass::Special, CharClass::Latin, CharClass::Bmp, CharClass::Astral, CharClass::Space] {
@@ -586,7 +595,8 @@ pub fn relax(m: &MVal, rng: &mut Rng) -> MVal {
 /// Wide (not deep) values: more than 128 siblings at one level, so a counter that should track nesting depth
 /// but tracks the number of values instead is noticed.
 pub fn gen_wide(rng: &mut Rng) -> MVal {
-    let n = 130 + rng.below(200);
+    // mostly 130..330 siblings; one in four exactly around a power of two (127/128/129, 255/256/257, 511/512/513)
+    let n = if rng.chance(1, 4) { (128usize << rng.below(3)) + rng.below(3) - 1 } else { 130 + rng.below(200) };
     match rng.below(4) {
         0 => MVal::List((0..n).map(|_| gen_scalar(rng)).collect()),
         1 => {
@@ -745,11 +755,15 @@ pub fn string_sig_class(s: &str) -> String {
 /// 2 grid, 3 a grid-meta tag, 4 a column-meta tag), the innermost value is a small scalar. Used by the deep-chain
 /// streams: the decoders accept 127 nested containers (128 is their documented limit).
 pub fn deep_chain(rng: &mut Rng, depth: usize, kinds: &[u8]) -> MVal {
-    let mut v = match rng.below(4) {
+    // the innermost value: a scalar, or an empty container (which sits on the same level and contains nothing to parse)
+    let mut v = match rng.below(7) {
         0 => MVal::Num(F(1.5), None),
         1 => MVal::Str("x".into()),
         2 => MVal::Marker,
-        _ => MVal::Ref("r".into(), Some("d".into())),
+        3 => MVal::Ref("r".into(), Some("d".into())),
+        4 => MVal::List(vec![]),
+        5 => MVal::Dict(MDict::new()),
+        _ => MVal::Grid(Box::new(MGrid { meta: MDict::new(), cols: vec![MCol { name: "a".into(), meta: [("m".to_string(), MVal::Marker)].into_iter().collect() }], rows: vec![] })),
     };
     for level in 0..depth {
         let k = kinds[(level + rng.below(kinds.len())) % kinds.len()];
@@ -767,4 +781,31 @@ pub fn deep_chain(rng: &mut Rng, depth: usize, kinds: &[u8]) -> MVal {
         };
     }
     v
+}
+
+/// Lengths at which a fixed-size buffer, chunk or counter boundary could sit: every length up to 1100 and the
+/// neighbourhood of 2^11, 2^12, 2^13, 2^16.
+pub fn boundary_lengths() -> Vec<usize> {
+    let mut v: Vec<usize> = (0..=1100).collect();
+    for p in [2048usize, 4096, 8192, 65536] {
+        v.extend(p - 7..=p + 7);
+    }
+    v
+}
+
+/// `n` ASCII letters followed by one character that needs special treatment somewhere (an escape, a multi-byte
+/// sequence) and one more letter: the special character sits at byte offset n of the string.
+pub const BOUNDARY_CHARS: [char; 8] = ['\u{1}', '"', '\\', '$', '\n', '\u{e9}', '\u{20ac}', '\u{1f600}'];
+pub fn boundary_value(n: usize, c: char) -> MVal {
+    let mut s = "a".repeat(n);
+    s.push(c);
+    s.push('z');
+    let mut items = vec![MVal::Str(s.clone()), MVal::Ref("r".into(), Some(s.clone())), MVal::XStr("Bin".into(), s.clone())];
+    if !c.is_control() {
+        items.push(MVal::Uri(s.clone()));
+    }
+    let mut d = MDict::new();
+    d.insert("dis".into(), MVal::Str(s));
+    items.push(MVal::Dict(d));
+    MVal::List(items)
 }
